@@ -326,6 +326,44 @@ func main() {
 			})
 		})
 
+		// a destination that fails (once, or from some call on): either an API call reports
+		// an error or the output is intact - never silence over a stream with a hole in it
+		r.Part("E1b-writer-failing-destination", func(t *explore.T) {
+			ps := payloads(false)
+			ps = append(ps, payload{"3000-mixed", append(lcg(1500, 3), bytes.Repeat([]byte("abc"), 500)...)})
+			for _, p := range ps {
+				for _, c := range compressors()[:3] {
+					for _, pattern := range []string{"W;F;C", "W;F;W;F", "W;W;C", "W;F;W;F;C"} {
+						// fault-free run to learn the number of destination calls
+						d0 := env.NewDst()
+						runPattern(wsflate.NewWriter(d0, c.mk), p.data, pattern)
+						for j := 0; j < len(d0.Calls); j++ {
+							for _, transient := range []bool{true, false} {
+								p, c, pattern, j, transient := p, c, pattern, j, transient
+								t.Do(func() string {
+									return fmt.Sprintf("payload=%s compressor=%s pattern=%s destination call %d fails (transient=%v)", p.name, c.name, pattern, j, transient)
+								}, func() *explore.Fail {
+									d := &flakyDst{failAt: j, transient: transient}
+									w := wsflate.NewWriter(d, c.mk)
+									err := runPattern(w, p.data, pattern)
+									if err != nil || w.Err() != nil {
+										t.Outcome("error-reported")
+										return nil
+									}
+									out, _, ierr := refmodel.Inflate(append(append([]byte{}, d.buf.Bytes()...), tail...))
+									if ierr != nil || !bytes.Equal(out, p.data) {
+										return explore.Failf("destination-failure-swallowed", "every call returned nil although destination call %d failed; output does not inflate to the message (%v)", j, ierr)
+									}
+									t.Outcome("failure-harmless")
+									return nil
+								})
+							}
+						}
+					}
+				}
+			}
+		})
+
 		r.Part("E2-reader", func(t *explore.T) {
 			// foreign and hand-built streams
 			var srcs []produced
@@ -625,6 +663,49 @@ func lastN(b []byte, n int) []byte {
 		return b[len(b)-n:]
 	}
 	return b
+}
+
+// flakyDst fails its failAt-th Write (only that one when transient, every later one otherwise).
+type flakyDst struct {
+	buf       bytes.Buffer
+	calls     int
+	failAt    int
+	transient bool
+}
+
+func (f *flakyDst) Write(p []byte) (int, error) {
+	i := f.calls
+	f.calls++
+	if i == f.failAt || (!f.transient && i > f.failAt) {
+		return 0, env.ErrInjected
+	}
+	return f.buf.Write(p)
+}
+
+// runPattern applies W(rite half)/F(lush)/C(lose) steps and returns the first error.
+func runPattern(w *wsflate.Writer, data []byte, pattern string) error {
+	steps := strings.Split(pattern, ";")
+	nw := strings.Count(pattern, "W")
+	off, k := 0, 0
+	var first error
+	for _, s := range steps {
+		var err error
+		switch s {
+		case "W":
+			k++
+			end := len(data) * k / nw
+			_, err = w.Write(data[off:end])
+			off = end
+		case "F":
+			err = w.Flush()
+		case "C":
+			err = w.Close()
+		}
+		if err != nil && first == nil {
+			first = err
+		}
+	}
+	return first
 }
 
 type passthrough struct{ w io.Writer }
